@@ -1,9 +1,175 @@
+import ScenicModel.Model.Interrupts
+import ScenicModel.Gen.Interrupts
 import Driver.Util
-/-! line protocol for the C13 model (stub: replaced when the property's model is built) -/
+/-!
+Line protocol for the C13 model (try-interrupt scheduler and guards).
+
+  run <cfg> <steps> <fuel> <main> <nbeh> <beh>*  C <n> <row>*  G <n> <row>*
+    cfg  = gen | spec | 15 characters 0/1 (fields of `Cfg` in declaration order)
+    beh  = P <n> g* I <n> g* [ stmt* ]
+    stmt = T a | D b | U b c | Y [ stmt* ] <nh> (c [ stmt* ])* | F n [ stmt* ] | W [ stmt* ] | A | B | C | R
+    row  = string of digits, one per time step (conditions 0/1, guards 0/1/2); `-` = empty row
+  answer: <outcome> | <action>* | <events of step 0> ; <events of step 1> ; ...
+  lower <cfg> <nbeh> <beh>*     -> ok | compile-error
+  cfg                            -> the generated configuration as 15 characters
+-/
 namespace Driver.C13
-open Driver
+open Driver Scenic.Interrupts
+
+def cfgBits (c : Cfg) : String :=
+  String.ofList ([c.condsReversed, c.handlersReversed, c.useEnabled, c.useRunning, c.firstWins,
+    c.finishedContinues, c.tiCheck, c.tiCheckSkipsSub, c.checkAfterInvoke, c.checkBeforeInvoke,
+    c.startPre, c.startInv, c.stopInFinally, c.nestedFlow, c.nestedNames].map fun b => if b then '1' else '0')
+
+def parseCfg (s : String) : Option Cfg :=
+  if s == "gen" then some Scenic.Gen.interruptCfg
+  else if s == "spec" then some Cfg.spec
+  else match s.toList.map (· == '1') with
+    | [a, b, c, d, e, f, g, h, i, j, k, l, m, n, o] =>
+      if s.toList.all (fun ch => ch == '0' || ch == '1') then
+        some { condsReversed := a, handlersReversed := b, useEnabled := c, useRunning := d, firstWins := e,
+               finishedContinues := f, tiCheck := g, tiCheckSkipsSub := h, checkAfterInvoke := i,
+               checkBeforeInvoke := j, startPre := k, startInv := l, stopInFinally := m, nestedFlow := n, nestedNames := o }
+      else none
+    | _ => none
+
+
+def pNat : List String → Option (Nat × List String)
+  | w :: ws => w.toNat?.map fun n => (n, ws)
+  | [] => none
+
+def pNats : Nat → List String → Option (List Nat × List String)
+  | 0, ws => some ([], ws)
+  | n + 1, ws => do
+    let (x, ws) ← pNat ws
+    let (xs, ws) ← pNats n ws
+    pure (x :: xs, ws)
+
+mutual
+partial def pStmts : List String → Option (List Stmt × List String)
+  | "]" :: ws => some ([], ws)
+  | ws => do
+    let (s, ws) ← pStmt ws
+    let (ss, ws) ← pStmts ws
+    pure (s :: ss, ws)
+
+partial def pBlock : List String → Option (List Stmt × List String)
+  | "[" :: ws => pStmts ws
+  | _ => none
+
+partial def pHandlers : Nat → List String → Option (List (Nat × List Stmt) × List String)
+  | 0, ws => some ([], ws)
+  | n + 1, ws => do
+    let (c, ws) ← pNat ws
+    let (h, ws) ← pBlock ws
+    let (hs, ws) ← pHandlers n ws
+    pure ((c, h) :: hs, ws)
+
+partial def pStmt : List String → Option (Stmt × List String)
+  | "T" :: ws => do let (a, ws) ← pNat ws; pure (.take a, ws)
+  | "D" :: ws => do let (b, ws) ← pNat ws; pure (.doSub b none, ws)
+  | "U" :: ws => do
+    let (b, ws) ← pNat ws
+    let (c, ws) ← pNat ws
+    pure (.doSub b (some c), ws)
+  | "Y" :: ws => do
+    let (body, ws) ← pBlock ws
+    let (n, ws) ← pNat ws
+    let (hs, ws) ← pHandlers n ws
+    pure (.tryI body hs, ws)
+  | "F" :: ws => do
+    let (n, ws) ← pNat ws
+    let (body, ws) ← pBlock ws
+    pure (.forN n body, ws)
+  | "W" :: ws => do let (body, ws) ← pBlock ws; pure (.whileT body, ws)
+  | "A" :: ws => some (.abort, ws)
+  | "B" :: ws => some (.brk, ws)
+  | "C" :: ws => some (.cont, ws)
+  | "R" :: ws => some (.ret, ws)
+  | _ => none
+end
+
+def pBeh : List String → Option (SBeh × List String)
+  | "P" :: ws => do
+    let (n, ws) ← pNat ws
+    let (pre, ws) ← pNats n ws
+    match ws with
+    | "I" :: ws =>
+      let (m, ws) ← pNat ws
+      let (inv, ws) ← pNats m ws
+      let (body, ws) ← pBlock ws
+      pure ({ pre := pre, inv := inv, body := body }, ws)
+    | _ => none
+  | _ => none
+
+def pBehs : Nat → List String → Option (List SBeh × List String)
+  | 0, ws => some ([], ws)
+  | n + 1, ws => do
+    let (b, ws) ← pBeh ws
+    let (bs, ws) ← pBehs n ws
+    pure (b :: bs, ws)
+
+def pRow (s : String) : List Nat :=
+  if s == "-" then [] else s.toList.map fun ch => ch.toNat - 48
+
+def pRows : Nat → List String → Option (List (List Nat) × List String)
+  | 0, ws => some ([], ws)
+  | n + 1, w :: ws => do
+    let (rs, ws) ← pRows n ws
+    pure (pRow w :: rs, ws)
+  | _, [] => none
+
+/-- conditions default to false and guards to true outside the table -/
+def mkEnv (ct gt : List (List Nat)) (t : Nat) : Env :=
+  { cond := fun c => (ct.getD c []).getD t 0 == 1,
+    guard := fun g => (gt.getD g []).getD t 1 }
+
+def showEv : Ev → String
+  | .chk b g => s!"c{b}.{g}"
+  | .sstart b => s!"+{b}"
+  | .sstop b => s!"-{b}"
+
+def showOutcome : Outcome → String
+  | .ok => "ok"
+  | .violation v t => s!"viol:{match v.kind with | .pre => "pre" | .inv => "inv"}:{v.beh}:{t}"
+  | .diverge t => s!"diverge:{t}"
+
+def showTrace (tr : Trace) : String :=
+  let acts := " ".intercalate (tr.actions.map fun a => match a with | some a => toString a | none => "-")
+  let evs := " ; ".intercalate (tr.events.map fun es => ",".intercalate (es.map showEv))
+  s!"{showOutcome tr.outcome} | {acts} | {evs}"
 
 def handle : List String → String
+  | ["cfg"] => cfgBits Scenic.Gen.interruptCfg
+  | "lower" :: cfg :: rest =>
+    match parseCfg cfg, pNat rest with
+    | some cfg, some (nb, ws) =>
+      match pBehs nb ws with
+      | some (behs, []) => if (lowerProg cfg behs).isSome then "ok" else "compile-error"
+      | _ => "bad-op"
+    | _, _ => "bad-op"
+  | "run" :: cfg :: steps :: fuel :: main :: rest =>
+    match parseCfg cfg, steps.toNat?, fuel.toNat?, main.toNat?, pNat rest with
+    | some cfg, some steps, some fuel, some main, some (nb, ws) =>
+      match pBehs nb ws with
+      | some (behs, "C" :: ws) =>
+        match pNat ws with
+        | some (nc, ws) =>
+          match pRows nc ws with
+          | some (ct, "G" :: ws) =>
+            match pNat ws with
+            | some (ng, ws) =>
+              match pRows ng ws with
+              | some (gt, []) =>
+                match lowerProg cfg behs with
+                | none => "compile-error"
+                | some P => showTrace (simulate cfg P (mkEnv ct gt) fuel main steps)
+              | _ => "bad-op"
+            | none => "bad-op"
+          | _ => "bad-op"
+        | none => "bad-op"
+      | _ => "bad-op"
+    | _, _, _, _, _ => "bad-op"
   | _ => "bad-op"
 
 end Driver.C13
